@@ -175,14 +175,25 @@ BLOCKS_SPEC = [
 ]
 
 
+_CG = {}
+
+
 def find_consts(F, fn, block_type):
-    """constants passed to <block_type>::find in fn and its closures"""
+    """constants that reach the key argument of <block_type>::find in the block's lowering: in the lowering function, its
+    closures and the tx3-lang functions it calls; a key that is a parameter of a helper (`fn require(&self, key)`) is resolved
+    to the constants its callers pass"""
+    from ..common import outer_origins
     out = set()
-    for b in with_closures(F, fn):
+    if id(F) not in _CG:
+        _CG[id(F)] = CallGraph(F, callbacks=False)
+    reach = _CG[id(F)].reachable([fn["path"]] + [c["path"] for c in with_closures(F, fn)[1:]])
+    for p in reach:
+        b = F.fns[p]
+        if b["crate"] != "tx3_lang":
+            continue
         for bi, t in mir.calls(b):
             if (t.get("callee") or "") == block_type + "::find" and len(t["args"]) > 1:
-                du = mir.DefUse(b)
-                for o in mir.provenance(b, du, t["args"][1]):
+                for fn2, o in outer_origins(F, b, t["args"][1], depth=2):
                     sv = mir.promoted_str(F, o.const) if o.kind == "const" else None
                     if sv is not None:
                         out.add(sv)
